@@ -437,6 +437,12 @@ PubRet(g) ==
                     \cup Flag(OnceLeftBehind(g), "onceLeft")]
   /\ UNCHANGED <<cfg, reg, attr, fired, seqHolder, cancelled, closed, npub>>
 
+\* all internal steps of goroutine g
+InternalStep(g) ==
+  \/ OpLin(g) \/ ClearAllDone(g) \/ ShutdownDone(g) \/ ShutdownCtx(g)
+  \/ \E t \in Types : ClearAllStep(g, t)
+  \/ Snapshot(g) \/ Claim(g) \/ Dispatch(g) \/ TaskStart(g) \/ SeqAcquire(g) \/ InvEnd(g) \/ Retire(g)
+
 \* ------------------------------------------------------------ properties
 TypeOK ==
   /\ \A t \in Types : \A i \in 1..Len(reg[t]) : reg[t][i] \in DOMAIN attr /\ attr[reg[t][i]].t = t
